@@ -70,7 +70,16 @@ fn strategy(t: Target, big: bool) -> impl Strategy<Value = Case> {
 	if t == Target::Dir {
 		cfg.max_side = 12;
 	}
-	(gen::set_spec(cfg), layout(t)).prop_map(|(spec, layout)| Case { spec, layout })
+	(gen::set_spec(cfg), layout(t), 0u8..12, any::<u32>(), 1u32..4, 1u32..3).prop_map(move |(mut spec, mut layout, special, r, w, h)| {
+		// PMTiles: equal payloads on the last tile of a level and the first tiles of the next, stored
+		// once and addressed by one run-length entry
+		if let (Layout::Pmtiles(l), true, false) = (&mut layout, special == 0, big) {
+			gen::border_run(&mut spec, r, w, h);
+			l.runs = true;
+			l.share = true;
+		}
+		Case { spec, layout }
+	})
 }
 
 fn oracle(case: &Case, obs: &mut Obs) -> Result<(), Fail> {
